@@ -107,6 +107,20 @@ def run(ctx):
     ok = bool(dels) and all(any(isinstance(a, ast.If) and "_var_map.values()" in norm(a.test) for a in _anc(d)) for d in dels)
     ctx.ob("C02.R2", IR + ":value_use.setter", "re-assigning one operand slot drops the use of the old value only if no other slot still holds it", ok, construct="setter-keeps-shared-use")
 
+    rb = ctx.fn(IR, "Value.replace_by")
+    site = IR + ":Value.replace_by"
+    ctx.need(len(rb.args.args) == 2, "Value.replace_by(self, value) signature changed")
+    newv = rb.args.args[1].arg
+    loops = [l for l in walk_no_nested(rb) if isinstance(l, ast.For)]
+    ok = len(loops) == 1 and norm(loops[0].iter) in ("list(self.used_by)", "tuple(self.used_by)", "set(self.used_by)", "list(self.used_by.copy())")
+    ctx.ob("C02.R2", site, "replace_by walks a snapshot of ALL users of the value (replace_use edits used_by while it runs)", ok, construct="replace-by-snapshot", detail=norm(loops[0].iter) if loops else "")
+    if loops:
+        u = norm(loops[0].target)
+        calls = [c for c in ast.walk(loops[0]) if isinstance(c, ast.Call) and norm(c.func) == u + ".replace_use"]
+        from ..flow import controlling
+        ok = len(calls) == 1 and [norm(a) for a in calls[0].args] == ["self", newv] and not list(controlling(calls[0], loops[0])) \
+            and not any(isinstance(x, (ast.Break, ast.Continue, ast.Return, ast.If, ast.Try)) for x in ast.walk(loops[0]))
+        ctx.ob("C02.R2", site, "every user - whichever it is, the replacement itself included (a phi that feeds itself) - has its slots rewritten: replace_use(self, new) is called unconditionally", ok, construct="replace-by-every-user")
     # R3
     cse = ctx.fn("ppci/opt/cse.py", "CommonSubexpressionEliminationPass.on_block")
     from ..tables import isinstance_branches
